@@ -28,11 +28,24 @@ THEOREMS = [
     "Ural.Props.C15.redirectSearch_embedded",
     "Ural.Props.C15.infer_target_embedded",
     "Ural.Props.C15.infer_result_chain",
+    # every hop reads the cleaned form of what it is given (seeded change C15-4)
+    "Ural.Props.C15.stepOf_eq_hop",
+    "Ural.Props.C15.inferOf_eq_hop",
+    "Ural.Props.C15.hop_cases",
+    "Ural.Props.C15.inferFuel_eq_iterStep",
+    "Ural.Props.C15.inferOf_hops_clean",
+    "Ural.Props.C15.inferOf_hop_reads_cleaned",
+    "Ural.Props.C15.infer_every_hop_cleans",
+    "Ural.Props.C15.infer_eq_iterated_step",
+    "Ural.Props.C15.clean_once_is_not_a_fixed_point",
+    "Ural.Props.C15.cleanedUrl_is_regenerated_cleaning",
+    "Ural.cleanedUrl_idempotent",
 ]
 TABLE_OBLIGATIONS = [
     "Ural.Props.C15.redirect_patterns_shape",
     "Ural.Props.C15.urllib_tables_unchanged",
     "Ural.Props.C15.protocol_pattern_unchanged",
+    "Ural.Props.C15.cleaning_class_unchanged",
 ]
 RULE = (
     "A case is one url; infer_redirection is run with recursive=True and recursive=False (model vs implementation), "
@@ -42,7 +55,11 @@ RULE = (
     "re.I folds onto ASCII) x 16 placements (query first/middle/last, path, fragment, userinfo, host position, scheme-less, "
     "bare, /url?q=, youtube redirect, ...) x 31 targets (absolute http(s), scheme-less, '/x', '/?u=/x', '//b.com/x', dot segments, "
     ";params, brackets, stray %, invalid UTF-8 escapes, TAB/CR/LF/NUL, IPv6 / IPvFuture / malformed bracketed hosts, non-ASCII, empty, self-referential) x 0-2 (quick) / 0-3 (thorough) extra levels of percent-encoding, "
-    "chains nested 1-4 deep with matching levels of encoding, AMP/Marfeel cache hosts x 7 tails x case variants, then seeded random "
+    "chains nested 1-4 deep with matching levels of encoding, AMP/Marfeel cache hosts x 7 tails x case variants, "
+    "inner hops that have to be cleaned (unclean_hops: 15 last-but-one-hop urls — every way a hop finds or declines a target, every cache host — "
+    "x EVERY position x the characters of the cleaning class re-derived from the running code [what CONTROL_CHARS_RE.sub removes, what str.strip removes: "
+    "TAB LF CR NUL 0x1F SP DEL NEL 0x9F NBSP U+2028 U+3000, BOM as the one that stays; thorough: every class boundary and its outer neighbour], buried 1-3 "
+    "levels deep with one level of percent-encoding per level, so that the character is escaped in the argument and raw only in a hop's decoded target), then seeded random "
     "compositions; a tenth of the grid and of the random urls is also wrapped in / sprinkled with whitespace and control characters "
     "(infer_redirection looks for its hints in the url cleaned as every url function cleans its input, and returns the argument itself when "
     "it finds none); kind=urljoin cases compare the hand-written urljoin with CPython's on base x reference pairs. "
@@ -50,8 +67,10 @@ RULE = (
     "or the url needs more than one step. Distinct = distinct url."
 )
 EXHAUSTIVE = {
-    "quick": "24 keys x 16 placements x 31 targets x 1 level of encoding (0 and 1 extra levels for the 12 genuine keys), 6 cache hosts x 7 tails x 2 case variants",
-    "thorough": "24 keys x 16 placements x 31 targets x 0-3 extra levels of percent-encoding, chains of depth 1-4 over 4 placements x 5 keys x 6 final targets, 6 cache hosts x 7 tails x 2 case variants",
+    "quick": "24 keys x 16 placements x 31 targets x 1 level of encoding (0 and 1 extra levels for the 12 genuine keys), 6 cache hosts x 7 tails x 2 case variants; "
+    "15 inner hops x every position x 13 code points of the cleaning class at depth 2 (one rotating code point at depths 3, 4)",
+    "thorough": "24 keys x 16 placements x 31 targets x 0-3 extra levels of percent-encoding, chains of depth 1-4 over 4 placements x 5 keys x 6 final targets, 6 cache hosts x 7 tails x 2 case variants; "
+    "15 inner hops x every position x 40 code points (named + every boundary of the regenerated classes and its outer neighbour) x depths 2, 3, 4",
 }
 TRUSTED = [
     "Lean 4 kernel; axioms of every listed theorem audited to be within {propext, Classical.choice, Quot.sound}",
@@ -314,7 +333,8 @@ def bury(inner, depth, i=0):
 def unclean_hops(tier):
     """every inner hop x every position (before the scheme, inside it, inside '://', the host, the hint key, between
     key and '=', inside the value, inside a cache host, at the end) x every injected code point, buried 1 level deep
-    (depth 2); depths 3 and 4 with a rotating code point (quick) / every code point (thorough)"""
+    (depth 2); depths 3 and 4, and depth 1 (the character raw in the argument), with a rotating code point (quick) /
+    every code point (thorough)"""
     codes = inject_codes(tier)
     i = 0
     for h in inner_hops():
@@ -329,6 +349,9 @@ def unclean_hops(tier):
                 for depth in (3, 4):
                     i += 1
                     yield bury(inject(h, pos, codes[(pos + depth) % len(codes)]), depth, i)
+            # depth 1: the same character raw in the argument itself (cleaned by the first hop)
+            for code in codes if tier != "quick" else [codes[pos % len(codes)]]:
+                yield inject(h, pos, code)
         # both ends at once, and two characters of different kinds side by side
         for a in codes[:6]:
             for b in codes[3:9]:
